@@ -23,7 +23,8 @@ EXPLANATION = (
     "(R4) Read/Append/WriteWorkingFile set the file type before and reset it after their work. "
     "(R2b) both passes accept the state letter under the same condition and then consume the same sequence of stream operations. (R6) a cleared manager is recognised as empty by STEPfile::SetFileIdIncrement (shared with C14 R6). Not decided: population equality and byte-for-byte stability of the second save."
     " (R7) a std::string declared outside a reading loop of STEPfile that is filled and cleared inside the loop (the comment accumulator of both passes, the skip buffer) is cleared after its last fill on every flag-consistent path that re-enters the loop body: nothing collected for a skipped (deleted) instance is carried to the next one."
-    " (R8) in STEPfile::AppendFile every path through the arm that recognises a magic keyword (ISO-10303-21, STEP_WORKING_SESSION) calls SetFileType with the mode that belongs to it.")
+    " (R8) in STEPfile::AppendFile every path through the arm that recognises a magic keyword (ISO-10303-21, STEP_WORKING_SESSION) calls SetFileType with the mode that belongs to it."
+    " (R6i) every path through STEPfile::SetFileIdIncrement assigns _fileIdIncr: the increment of one append is never carried into a later read.")
 
 
 def state_enum(prog):
@@ -405,6 +406,7 @@ def r8_keyword_selects_mode(prog, res):
 def run(prog, res, tier):
     from rules import c13 as _c13
     _c13.r3_clear_resets_max(prog, res, rule="R6.cleared_manager_is_recognised_empty")
+    _c13.r3_increment_always_recomputed(prog, res, rule="R6.increment_always_recomputed")
     r1_tables(prog, res)
     r2_passes(prog, res)
     r3_state_kept(prog, res)
